@@ -38,10 +38,14 @@ def prepare(tier, seed):
 
 def jobs(tier, seed):
     n = 5 if tier == 'quick' else 7
-    return [dict(name=f'{c}-{mode}', cls=c, mode=mode, n=n) for c in (CLASSES_Q if tier == 'quick' else CLASSES_T) for mode in ('one-run', 'two-runs')]
+    cl = CLASSES_Q if tier == 'quick' else CLASSES_T
+    js = [dict(name=f'{c}-{mode}', cls=c, mode=mode, n=n) for c in cl for mode in ('one-run', 'two-runs')]
+    # class lists that leave some intermediate values undeclared (those traces must be ignored in every batch alike)
+    js += [dict(name=f'{c}-one-run-sparse', cls=c, mode='one-run-sparse', n=n) for c in cl if c.startswith(('ANOVA', 'NICV', 'SNR'))]
+    return js
 
 
-def make_analysis(cls, convergence_step=None, precision='float64'):
+def make_analysis(cls, convergence_step=None, precision='float64', sparse=False):
     A, models, disc, sfm = _m['analysis'], _m['models'], _m['disc'], _m['sf']
     attack = cls.endswith('Attack')
     dpa = cls.startswith('DPA')
@@ -62,7 +66,7 @@ def make_analysis(cls, convergence_step=None, precision='float64'):
         kw['discriminant'] = disc.maxabs
         kw['convergence_step'] = convergence_step
     if cls.startswith(('ANOVA', 'NICV', 'SNR', 'MIA')):
-        kw['partitions'] = list(range(8))
+        kw['partitions'] = [0, 2] if sparse else list(range(8))
     if cls.startswith('MIA'):
         kw['bin_edges'] = [0, 2, 4, 6, 8]
         kw['precision'] = 'uint32'
@@ -97,8 +101,9 @@ def run_job(job):
                 continue            # thin the grid: every value of every dimension still occurs with several partners
             L.CLOCK.reset()
             cont.set_batch_size(bs)
-            an, sf, model = make_analysis(cls)
-            if mode == 'one-run':
+            sparse = mode.endswith('sparse')
+            an, sf, model = make_analysis(cls, sparse=sparse)
+            if mode.startswith('one-run'):
                 parts = [(0, n)]
             else:
                 parts = [(0, 3), (3, n)]
@@ -109,7 +114,7 @@ def run_job(job):
                 an.run(c)
                 del CTX.side[mark:]
             # one-shot oracle: the same class fed once with everything
-            ref, sf2, model2 = make_analysis(cls)
+            ref, sf2, model2 = make_analysis(cls, sparse=sparse)
             xf = x if frame is ... else x[:, frame]
             for f in chain:
                 xf = f(xf)
@@ -117,7 +122,7 @@ def run_job(job):
             ref.update(traces=xf, data=inter)
             expected = ref.compute()
             got = an.results
-            desc = f'{cls}.run on a container (batch size {bs}, frame {frame}, {len(chain)} preprocess(es){", two run() calls" if mode != "one-run" else ""})'
+            desc = f'{cls}.run on a container (batch size {bs}, frame {frame}, {len(chain)} preprocess(es){", two run() calls" if mode == "two-runs" else ""}{", classes [0, 2] (values 1 and 3 undeclared)" if sparse else ""})'
 
             def wit(what):
                 return lambda m, bs=bs, frame=frame, chain=chain: dict(kind='run', cls=cls, mode=mode, n=n, bs=bs if not isinstance(bs, list) else 'table', frame=str(frame),
@@ -170,7 +175,7 @@ def replay(w):
         if attack:
             kw['discriminant'] = scared.maxabs
         if cls.startswith(('ANOVA', 'NICV', 'SNR', 'MIA')):
-            kw['partitions'] = list(range(8))
+            kw['partitions'] = [0, 2] if mode.endswith('sparse') else list(range(8))
         if mia:
             kw['bin_edges'] = [0, 2, 4, 6, 8]
             kw['precision'] = 'uint32'
@@ -180,7 +185,7 @@ def replay(w):
         scared.set_batch_size(bs)
         try:
             an, sf, model = mk()
-            parts = [(0, n)] if mode == "one-run" else [(0, 3), (3, n)]
+            parts = [(0, n)] if mode.startswith("one-run") else [(0, 3), (3, n)]
             with np.errstate(all='ignore'):
                 for a, b in parts:
                     ths = tr.read_ths_from_ram(samples=X[a:b], data=data[a:b])
